@@ -3,7 +3,7 @@
 
 *)
 From Coq Require Import ZArith NArith List Bool Arith.
-From NSG Require Import Base.Prelude Model.Defender Model.Coord Proofs.CoordBase Proofs.CoordInv Proofs.CoordInvConn Proofs.CoordInvDispatch Proofs.CoordInvHandler Proofs.CoordProps Proofs.CoordDirect Proofs.CoordInv2 Proofs.CoordAgentStep Proofs.CoordBarrier Proofs.CoordMeasure Proofs.CoordIsolation.
+From NSG Require Import Base.Prelude Model.Defender Model.Coord Proofs.CoordBase Proofs.CoordInv Proofs.CoordInvConn Proofs.CoordInvDispatch Proofs.CoordInvHandler Proofs.CoordProps Proofs.CoordDirect Proofs.CoordInv2 Proofs.CoordAgentStep Proofs.CoordBarrier Proofs.CoordMeasure Proofs.CoordIsolation Proofs.CoordLimit.
 Import ListNotations.
 
 (* every processed action sets the reward to the step reward *)
@@ -147,8 +147,9 @@ Proof. exact (@rewarded_ended_reachable). Qed.
 
 (* the reward of a finished agent changes only by the reward task paying an agent not yet rewarded, or by the reset *)
 Theorem C05_reward_moves :
-  forall (V G : Type) (cfg : config) (a a' : @agent V G) (l : @label G),
-       @achange V G cfg a l a' ->
+  forall (V G : Type) (goal : role -> V -> bool) (detect : list G -> G -> bool) 
+         (cfg : config) (a a' : @agent V G) (l : @label G),
+       @achange V G goal detect cfg a l a' ->
        @a_ended V G a = true ->
        @a_reward V G a' <> @a_reward V G a ->
        l = @LRun G TRewards /\ @a_rewarded V G a = false /\ @a_rewarded V G a' = true \/ l = @LRun G TReset.
